@@ -16,6 +16,7 @@ Import ListNotations.
    sample-group namespace of flattened children as found (known finding). *)
 Definition repo_fixed_tag : bool := true.
 Definition repo_fixed_sg : bool := false.
+Definition repo_fixed_wrap : bool := true.
 
 Definition dec_style (x : sx) : style :=
   match sx_z x with 1%Z => Pascal | 2%Z => Snake | 3%Z => Kebab | _ => Preserve end.
@@ -23,19 +24,25 @@ Definition dec_obytes (x : sx) : option bytes := sx_option sx_bytes x.
 Definition dec_prefix (x : sx) : option prefix :=
   sx_option (fun y => match sx_tag y with 0%Z => PInfl (sx_bytes (sx_arg y 0)) | _ => PExact (sx_bytes (sx_arg y 0)) end) x.
 Definition dec_obs (k p : sx) : obs := match sx_z k with 0%Z => OU (sx_n p) | _ => OF (sx_n p) end.
+Definition dec_pairs (x : sx) : list (bytes * bytes) :=
+  map (fun y => (sx_bytes (sx_nth y 0), sx_bytes (sx_nth y 1))) (sx_list x).
+Definition enc_pairs (l : list (bytes * bytes)) : sx := L (map (fun p => L [B (fst p); B (snd p)]) l).
 Definition dec_vcall (x : sx) : vcall :=
   match sx_tag x with
   | 0%Z => VNone
   | 1%Z => VString (sx_bytes (sx_arg x 0))
-  | 2%Z => VMetric (dec_obs (sx_arg x 0) (sx_arg x 1)) (sx_n (sx_arg x 2))
+  | 2%Z => VMetric (dec_obs (sx_arg x 0) (sx_arg x 1)) (sx_n (sx_arg x 2)) (dec_pairs (sx_arg x 3)) (sx_bool (sx_arg x 4))
   | _ => VInvalid
   end.
+(* wrapper: (0 ((k v) ...)) WithDimensions | (1) ForceFlag *)
+Definition dec_wrapper (x : sx) : wrapper :=
+  match sx_tag x with 0%Z => WDims (dec_pairs (sx_arg x 0)) | _ => WForced end.
 Definition enc_obs (o : obs) : list sx := match o with OU n => [A 0%Z; of_n n] | OF b => [A 1%Z; of_n b] end.
 Definition enc_vcall (v : vcall) : sx :=
   match v with
   | VNone => tagged 0 []
   | VString s => tagged 1 [B s]
-  | VMetric o u => tagged 2 (enc_obs o ++ [of_n u])
+  | VMetric o u d f => tagged 2 (enc_obs o ++ [of_n u; enc_pairs d; of_bool f])
   | VInvalid => tagged 3 []
   end.
 
@@ -45,6 +52,7 @@ Fixpoint dec_leaf (fuel : nat) (x : sx) : leaf :=
   | S f =>
     match sx_tag x with
     | 0%Z => LNum (dec_obs (sx_arg x 0) (sx_arg x 1)) (sx_n (sx_arg x 2))
+    | 5%Z => LWrap (dec_wrapper (sx_arg x 0)) (dec_leaf f (sx_arg x 1))
     | 1%Z => LStr (sx_bytes (sx_arg x 0))
     | 2%Z => LEnum (dec_style (sx_arg x 0))
                    (map (fun v => (sx_bytes (sx_nth v 0), dec_obytes (sx_nth v 1))) (sx_list (sx_arg x 1)))
@@ -55,7 +63,9 @@ Fixpoint dec_leaf (fuel : nat) (x : sx) : leaf :=
   end.
 
 Definition dec_tag (x : sx) : tag := Tag (sx_bool (sx_nth x 0)) (sx_bytes (sx_nth x 1)) (sx_bool (sx_nth x 2)).
-Definition dec_optmode (x : sx) : optmode := match sx_z x with 1%Z => OptSome | 2%Z => OptNone | _ => Plain end.
+(* 0 plain | 1 Some | 2 None | (3 wrapper) *)
+Definition dec_optmode (x : sx) : optmode :=
+  match sx_tag x with 1%Z => OptSome | 2%Z => OptNone | 3%Z => Wrapped (dec_wrapper (sx_arg x 0)) | _ => Plain end.
 
 Fixpoint dec_edef (fuel : nat) (x : sx) {struct fuel} : edef :=
   match fuel with
@@ -132,30 +142,15 @@ Definition enc_sitem (it : sitem) : sx :=
   end.
 
 (* ---- 702: the mechanism model: what RootEntry::write / sample_group do with the recording writer ---- *)
-Definition run_model (ftag fsg : bool) (x : sx) : sx :=
+Definition run_model (ftag fsg fwrap : bool) (x : sx) : sx :=
   let d := dec_case x in
   L [L (map enc_item (root_write to_pascal_case to_snake_case to_kebab_case ftag d));
-     L (map enc_group (root_sg to_pascal_case to_snake_case to_kebab_case ftag fsg d))].
-Definition c07_model (x : sx) : sx := run_model repo_fixed_tag repo_fixed_sg x.
-Definition c07_model_asfound (x : sx) : sx := run_model false false x.
+     L (map enc_group (root_sg to_pascal_case to_snake_case to_kebab_case ftag fsg fwrap d))].
+Definition c07_model (x : sx) : sx := run_model repo_fixed_tag repo_fixed_sg repo_fixed_wrap x.
+Definition c07_model_asfound (x : sx) : sx := run_model false false false x.
 
 (* ---- 703: the property predicate on (case, implementation output): 1, or else what was expected ---- *)
-Definition vcall_eqb (a b : vcall) : bool :=
-  match a, b with
-  | VNone, VNone => true
-  | VString s, VString t => if list_eq_dec N.eq_dec s t then true else false
-  | VMetric (OU n) u, VMetric (OU m) w => N.eqb n m && N.eqb u w
-  | VMetric (OF n) u, VMetric (OF m) w => N.eqb n m && N.eqb u w
-  | VInvalid, VInvalid => true
-  | _, _ => false
-  end.
 Definition bytes_eqb (s t : bytes) : bool := if list_eq_dec N.eq_dec s t then true else false.
-Definition sitem_eqb (a b : sitem) : bool :=
-  match a, b with
-  | STimestamp t, STimestamp u => N.eqb t u
-  | SValue n v, SValue m w => bytes_eqb n m && vcall_eqb v w
-  | _, _ => false
-  end.
 Fixpoint list_eqb {T} (eqb : T -> T -> bool) (a b : list T) : bool :=
   match a, b with
   | [], [] => true
@@ -164,6 +159,23 @@ Fixpoint list_eqb {T} (eqb : T -> T -> bool) (a b : list T) : bool :=
   end.
 Definition group_eqb (a b : bytes * bytes) : bool := bytes_eqb (fst a) (fst b) && bytes_eqb (snd a) (snd b).
 
+Definition vcall_eqb (a b : vcall) : bool :=
+  match a, b with
+  | VNone, VNone => true
+  | VString s, VString t => if list_eq_dec N.eq_dec s t then true else false
+  | VMetric (OU n) u d f, VMetric (OU m) w e g =>
+      N.eqb n m && N.eqb u w && list_eqb group_eqb d e && Bool.eqb f g
+  | VMetric (OF n) u d f, VMetric (OF m) w e g =>
+      N.eqb n m && N.eqb u w && list_eqb group_eqb d e && Bool.eqb f g
+  | VInvalid, VInvalid => true
+  | _, _ => false
+  end.
+Definition sitem_eqb (a b : sitem) : bool :=
+  match a, b with
+  | STimestamp t, STimestamp u => N.eqb t u
+  | SValue n v, SValue m w => bytes_eqb n m && vcall_eqb v w
+  | _, _ => false
+  end.
 Definition spec_of (d : edef) : list sitem * list (bytes * bytes) :=
   (spec_items to_pascal_case to_snake_case to_kebab_case d, spec_groups to_pascal_case to_snake_case to_kebab_case d).
 (* written items: names, values, units *)
